@@ -44,6 +44,14 @@ var verifSamples = []verifKindSample{
 	{"Discriminator", func() any { return &Discriminator{} }, `{"propertyName":"p","mapping":{"a":"#/components/schemas/A"},"x-ext":1}`, []string{"propertyName"}},
 	{"XML", func() any { return &XML{} }, `{"name":"n","namespace":"ns","prefix":"p","attribute":true,"wrapped":true,"x-ext":1}`, nil},
 	{"T", func() any { return &T{} }, verifBaseDoc, []string{"openapi", "info", "paths"}},
+	// names and values whose letter case matters to the reader of the output: they come back as written
+	{"ResponseMixedCase", func() any { return &Response{} }, `{"description":"D","headers":{"X-Rate-Limit":{"schema":{"type":"integer"}},"ETag":{"schema":{"type":"string"}}},"content":{"text/plain; charset=UTF-8":{"schema":{"type":"string"}},"application/vnd.Acme.v1+json":{"schema":{"type":"string"},"examples":{"Small":{"value":"V"}},"encoding":{"Field":{"contentType":"Text/Plain"}}},"Application/JSON":{"schema":{"type":"string"}}},"links":{"NextPage":{"operationId":"GetNext"}}}`, nil},
+	{"SecuritySchemeMixedCase", func() any { return &SecurityScheme{} }, `{"type":"http","scheme":"Bearer","bearerFormat":"JWT","description":"Use The Token"}`, nil},
+	{"SecuritySchemeKeyMixedCase", func() any { return &SecurityScheme{} }, `{"type":"apiKey","name":"X-API-Key","in":"header"}`, nil},
+	{"ParameterMixedCase", func() any { return &Parameter{} }, `{"name":"X-Request-ID","in":"header","schema":{"type":"string","enum":["A","a"],"default":"A","pattern":"^[A-Za-z]$","format":"UUID"},"examples":{"Upper":{"value":"A"}}}`, nil},
+	{"ComponentsMixedCase", func() any { return &Components{} }, `{"schemas":{"Pet":{"type":"string"},"pet":{"type":"integer"}},"parameters":{"PageSize":{"name":"pageSize","in":"query","schema":{"type":"string"}}},"headers":{"RateLimit":{"schema":{"type":"string"}}},"requestBodies":{"NewPet":{"content":{"application/JSON":{"schema":{"type":"string"}}}}},"responses":{"NotFound":{"description":"d"}},"securitySchemes":{"BearerAuth":{"type":"http","scheme":"Bearer"}},"examples":{"Ex":{"value":1}},"links":{"Li":{"operationId":"Op"}},"callbacks":{"OnEvent":{"{$request.body#/CallbackURL}":{"post":{"responses":{"2XX":{"description":"d"}}}}}}}`, nil},
+	{"ServerMixedCase", func() any { return &Server{} }, `{"url":"HTTPS://{Host}.Example.COM/Base%20Path","variables":{"Host":{"enum":["A","a"],"default":"A"}}}`, []string{"url"}},
+	{"PathItemMixedCase", func() any { return &PathItem{} }, `{"get":{"operationId":"GetThing","tags":["Things","things"],"responses":{"200":{"description":"d"},"4XX":{"description":"d"},"default":{"description":"d"}},"security":[{"BearerAuth":["Read:All"]}]}}`, nil},
 	// member names that look like extensions: in a name -> object map "x-..." is an ordinary name
 	{"SchemaXNames", func() any { return &Schema{} }, `{"type":"object","properties":{"x-trace-id":{"type":"string"},"a":{"type":"integer"}},"required":["x-trace-id"]}`, nil},
 	{"ResponseXNames", func() any { return &Response{} }, `{"description":"d","headers":{"x-rate-limit":{"schema":{"type":"integer"}}},"content":{"application/json":{"schema":{"type":"string"},"examples":{"x-small":{"value":"s"}}}},"links":{"x-next":{"operationId":"op"}}}`, []string{"description"}},
@@ -217,5 +225,5 @@ func verifC03(samples []verifKindSample) {
 	verifReach("end")
 }
 
-//verif:harness id=C03 tier=quick,thorough witness=end bounds="19 OpenAPI 3 object kinds (Schema x2, Parameter, Header, MediaType+Encoding, RequestBody, Response, Operation, PathItem, Components, SecurityScheme+OAuthFlows, Server+Variable, Info+Contact+License, Tag+ExternalDocs, Link, Example, Discriminator, XML, whole document) in normal form with every specified field and an x- extension; variants: all members, each member dropped, each member alone, every boolean negated; JSON reader/writer only (YAML and byte-level syntax are not applicable)"
+//verif:harness id=C03 tier=quick,thorough witness=end bounds="19 OpenAPI 3 object kinds (Schema x2, Parameter, Header, MediaType+Encoding, RequestBody, Response, Operation, PathItem, Components, SecurityScheme+OAuthFlows, Server+Variable, Info+Contact+License, Tag+ExternalDocs, Link, Example, Discriminator, XML, whole document) in normal form with every specified field and an x- extension; plus samples with mixed-case names and values (media types, header names, HTTP scheme Bearer, component names differing in case only, server URL, status classes); variants: all members, each member dropped, each member alone, every boolean negated; JSON reader/writer only (YAML and byte-level syntax are not applicable)"
 func verifH_C03_openapi3() { verifC03(verifSamples) }
